@@ -44,6 +44,7 @@
 #include <sys/sendfile.h>
 #include <sys/un.h>
 #include <netinet/in.h>
+#include <netinet/tcp.h>
 #include <arpa/inet.h>
 #include "uv.h"
 
@@ -83,12 +84,12 @@ enum { S_read, S_write, S_readv, S_writev, S_pread, S_pwrite, S_sendmsg, S_recvm
        S_waitpid, S_poll, S_nanosleep, S_fsync, S_fdatasync, S_ftruncate, S_close, S_fork, S_statx,
        S_sendfile, S_preadv, S_pwritev, S_bind, S_listen,
        S_opendir, S_scandir, S_readlink, S_realpath, S_mkdtemp, S_mkstemp, S_rename, S_unlink, S_mkdir, S_rmdir, S_symlink,
-       S_access, S_N };
+       S_access, S_setsockopt, S_N };
 static const char* const sname[S_N] = { "read", "write", "readv", "writev", "pread", "pwrite", "sendmsg", "recvmsg",
   "sendmmsg", "recvmmsg", "accept4", "connect", "socket", "socketpair", "open", "pipe2", "epoll_create1",
   "epoll_ctl", "epoll_pwait", "eventfd", "inotify_init1", "inotify_add_watch", "fcntl", "ioctl", "dup2", "dup3",
   "waitpid", "poll", "nanosleep", "fsync", "fdatasync", "ftruncate", "close", "fork", "statx", "sendfile", "preadv", "pwritev", "bind", "listen",
-  "opendir", "scandir", "readlink", "realpath", "mkdtemp", "mkstemp", "rename", "unlink", "mkdir", "rmdir", "symlink", "access" };
+  "opendir", "scandir", "readlink", "realpath", "mkdtemp", "mkstemp", "rename", "unlink", "mkdir", "rmdir", "symlink", "access", "setsockopt" };
 /* fd kinds: - none/unknown, s socket, p pipe, e eventfd, i inotify, f file, E epoll */
 static const char kinds[] = "-speifE";
 #define K_N 7
@@ -255,6 +256,9 @@ int accept4(int fd, struct sockaddr* a, socklen_t* l, int fl) { int r; INJ(S_acc
 int connect(int fd, const struct sockaddr* a, socklen_t l) { INJ(S_connect, fd); return RAW(SYS_connect, fd, a, l); }
 int bind(int fd, const struct sockaddr* a, socklen_t l) { INJ(S_bind, fd); return RAW(SYS_bind, fd, a, l); }
 int listen(int fd, int n) { INJ(S_listen, fd); return RAW(SYS_listen, fd, n); }
+/* socket options allocate in the kernel (ENOBUFS / ENOMEM); libuv issues them when a handle is given a socket
+ * (remembered TCP_NODELAY / SO_KEEPALIVE + TCP_KEEP*), at bind (SO_REUSEADDR, IPV6_V6ONLY) and on request */
+int setsockopt(int fd, int level, int name, const void* val, socklen_t len) { INJ(S_setsockopt, fd); return RAW(SYS_setsockopt, fd, level, name, val, len); }
 int socket(int d, int t, int p) { int r; INJ(S_socket, -1); r = RAW(SYS_socket, d, t, p); setkind(r, 's'); return r; }
 int socketpair(int d, int t, int p, int sv[2]) { int r; INJ(S_socketpair, -1); r = RAW(SYS_socketpair, d, t, p, sv); if (r == 0) { setkind(sv[0], 's'); setkind(sv[1], 's'); } return r; }
 int open(const char* path, int flags, ...) {
@@ -408,6 +412,12 @@ long syscall(long n, ...) {
     int inj = inject(S_close, (int) a);
     long r = RAW(SYS_close, a);
     if (r == 0 && a >= 0 && a < MAXFD) fdkind[a] = 0;
+    /* descriptor accounting: libuv releasing a number that is not an open descriptor has released it twice (the
+     * first release made the number available to everybody else in the process) */
+    if (r != 0 && errno == EBADF && atomic_load(&armed) && !quiet_depth) {
+      VIOL("close-not-open", "close(%ld) by libuv: not an open descriptor (released twice)", a);
+      errno = EBADF;
+    }
     if (inj && r == 0) { errno = inj; return -1; }
     return r;
   }
@@ -1145,6 +1155,157 @@ static void sc_os(void) {
 }
 
 
+/* ================================================================== scenario family adopt:<options>:<path>
+ * A TCP handle on which options were requested while it had no socket (uv_tcp_nodelay / uv_tcp_keepalive only
+ * remember a flag then) is given a descriptor: options = nodelay | keepalive | both | none;  path =
+ *   accept   uv_accept from a listening TCP handle        ipc      uv_accept of a descriptor received over an IPC pipe
+ *   open     uv_tcp_open of a socket owned by the caller  bind / connect / listen   lazy socket creation
+ * The remembered options are applied by system calls issued during the adoption; every one of them (and everything
+ * else in the scenario) is a fault point.  Observed after the adopting call: its return code; what the handle claims
+ * to own (uv_fileno); the application then opens descriptors of its own, everything is closed, and the application's
+ * descriptors must still be there, untouched.  Descriptor ownership is part of the accounting the property is about:
+ * after a failed adoption exactly one party releases the descriptor, exactly once. */
+#define AD_APP 4
+static long count_fds(void);
+static long ad_f0, ad_d;      /* open descriptors before the adopting call / delta caused by it (before the caller cleans up) */
+#define AD_CALL(expr) (ad_f0 = count_fds(), rc = (int) (expr), ad_d = count_fds() - ad_f0, rc)
+static struct { char opts[16], path[16]; int nodelay, keepalive; uv_tcp_t *h, *srv; uv_pipe_t* ipc; int raw_a, raw_b, observed;
+                int app[AD_APP]; struct stat ast[AD_APP]; struct sockaddr_in addr; } ad;
+static int ad_getopt(int fd, int level, int name) { int v = -1; socklen_t l = sizeof v; if (RAW(SYS_getsockopt, fd, level, name, &v, &l)) return -1; return v; }
+/* adoption_only: the call does nothing but adopt, so failure means "not adopted" */
+static void ad_observe(const char* call, int rc, int adoption_only) {
+  uv_os_fd_t f = -1; int fr, i;
+  ad.observed = 1;
+  fr = uv_fileno((uv_handle_t*) ad.h, &f);
+  if (rc < 0 && adoption_only && fr != UV_EBADF)
+    VIOL("failed-adoption-fd-claimed", "%s returned %s but the handle still claims descriptor %d (uv_fileno -> %s); the caller of uv__stream_open releases it as well", call, en(rc), (int) f, en(fr));
+  if (fr == 0 && RAW(SYS_fcntl, f, F_GETFD) < 0)
+    VIOL("handle-fd-not-open", "%s returned %s and the handle claims descriptor %d, which is not open", call, en(rc), (int) f);
+  if (rc == 0 && fr != 0)
+    VIOL("adopted-fd-missing", "%s returned 0 but uv_fileno -> %s", call, en(fr));
+  OUT("OA rc=%d owns=%d fds=%ld", rc < 0 ? rc : 0, fr == 0, ad_d);      /* format of `uvdriver c16adopt` */
+  OUT("T adopt %s %s rc=%s owns=%d nodelay=%d keepalive=%d idle=%d", ad.opts, ad.path, en(rc), fr == 0,
+      fr == 0 ? ad_getopt(f, IPPROTO_TCP, TCP_NODELAY) : -1, fr == 0 ? ad_getopt(f, SOL_SOCKET, SO_KEEPALIVE) : -1,
+      fr == 0 && ad.keepalive ? ad_getopt(f, IPPROTO_TCP, TCP_KEEPIDLE) : -1);
+  /* the application goes on and opens descriptors of its own: they get the lowest free numbers */
+  for (i = 0; i < AD_APP; i++) {
+    ad.app[i] = (int) RAW(SYS_openat, AT_FDCWD, "/dev/null", O_RDONLY | O_CLOEXEC, 0);
+    if (ad.app[i] >= 0) RAW(SYS_fstat, ad.app[i], &ad.ast[i]);
+  }
+}
+static void ad_check_app(void) {
+  int i; struct stat st;
+  for (i = 0; i < AD_APP; i++) {
+    if (!ad.observed || ad.app[i] < 0) continue;
+    if (RAW(SYS_fstat, ad.app[i], &st) < 0)
+      VIOL("foreign-fd-closed", "%s: descriptor %d, opened by the application after the adopting call returned, was closed behind its back", ad.path, ad.app[i]);
+    else if (st.st_ino != ad.ast[i].st_ino || st.st_dev != ad.ast[i].st_dev)
+      VIOL("foreign-fd-replaced", "%s: descriptor %d of the application now refers to a different object", ad.path, ad.app[i]);
+    RAW(SYS_close, ad.app[i]); ad.app[i] = -1;
+  }
+}
+static void ad_conn_cb(uv_stream_t* srv, int status) {
+  int rc;
+  if (CB("connection_cb", status)) return;
+  A("uv_accept", AD_CALL(uv_accept(srv, (uv_stream_t*) ad.h)));
+  ad_observe("uv_accept", rc, 1);
+  bail();
+}
+static void ad_ipc_read(uv_stream_t* s, ssize_t n, const uv_buf_t* b) {
+  int rc; (void) b;
+  if (n == 0) return;
+  if (n < 0) { CB("ipc_read_cb", (int) n); return; }
+  if (uv_pipe_pending_count((uv_pipe_t*) s) < 1) { VIOL("ipc-pending-missing", "%s", "no pending handle after the descriptor arrived"); bail(); return; }
+  A("uv_accept(ipc)", AD_CALL(uv_accept(s, (uv_stream_t*) ad.h)));
+  ad_observe("uv_accept(ipc)", rc, 1);
+  bail();
+}
+static void ad_connect_cb(uv_connect_t* c, int status) { got[Q_connect]++; free(c); CB("connect_cb", status); OUT("T adopt connected %s", en(status)); bail(); }
+static void ad_listen_cb(uv_stream_t* s, int status) { (void) s; (void) status; }
+static int ad_raw_listener(void) {      /* a listening socket of the harness (never faulted, never counted) */
+  int fd = (int) RAW(SYS_socket, AF_INET, SOCK_STREAM | SOCK_CLOEXEC, 0); socklen_t l = sizeof ad.addr;
+  uv_ip4_addr("127.0.0.1", 0, &ad.addr);
+  if (fd < 0 || RAW(SYS_bind, fd, &ad.addr, sizeof ad.addr) || RAW(SYS_listen, fd, 4) || RAW(SYS_getsockname, fd, &ad.addr, &l)) { if (fd >= 0) RAW(SYS_close, fd); return -1; }
+  return fd;
+}
+static char adopt_spec[64];
+static void sc_adopt(void) {
+  char sp[64]; char* t; int rc;
+  ad.raw_a = ad.raw_b = -1;
+  for (rc = 0; rc < AD_APP; rc++) ad.app[rc] = -1;
+  snprintf(sp, sizeof sp, "%s", adopt_spec);
+  t = strtok(sp, ":"); snprintf(ad.opts, sizeof ad.opts, "%s", t ? t : "");
+  t = strtok(NULL, ":"); snprintf(ad.path, sizeof ad.path, "%s", t ? t : "");
+  ad.nodelay = !strcmp(ad.opts, "nodelay") || !strcmp(ad.opts, "both");
+  ad.keepalive = !strcmp(ad.opts, "keepalive") || !strcmp(ad.opts, "both");
+  if (!ad.nodelay && !ad.keepalive && strcmp(ad.opts, "none")) { OUT("bad-op adopt options %s", ad.opts); return; }
+  ad.h = NEW(uv_tcp_t);
+  if (A("uv_tcp_init", uv_tcp_init(loop, ad.h))) { free(ad.h); ad.h = NULL; return; }
+  /* legal on a handle without a socket: remembered in the handle flags, applied when it gets one */
+  if (ad.nodelay && A("uv_tcp_nodelay", uv_tcp_nodelay(ad.h, 1))) goto out;
+  if (ad.keepalive && A("uv_tcp_keepalive", uv_tcp_keepalive(ad.h, 1, 60))) goto out;
+  if (!strcmp(ad.path, "accept")) {
+    int len = sizeof ad.addr;
+    ad.srv = NEW(uv_tcp_t);
+    if (A("uv_tcp_init", uv_tcp_init(loop, ad.srv))) { free(ad.srv); ad.srv = NULL; goto out; }
+    uv_ip4_addr("127.0.0.1", 0, &ad.addr);
+    if (A("uv_tcp_bind", uv_tcp_bind(ad.srv, (struct sockaddr*) &ad.addr, 0))) goto out;
+    if (A("uv_listen", uv_listen((uv_stream_t*) ad.srv, 4, ad_conn_cb))) goto out;
+    if (A("uv_tcp_getsockname", uv_tcp_getsockname(ad.srv, (struct sockaddr*) &ad.addr, &len))) goto out;
+    ad.raw_a = (int) RAW(SYS_socket, AF_INET, SOCK_STREAM | SOCK_CLOEXEC, 0);       /* the peer: a plain blocking connect */
+    if (ad.raw_a < 0 || RAW(SYS_connect, ad.raw_a, &ad.addr, sizeof ad.addr)) { OUT("I adopt: harness connect failed"); goto out; }
+    uv_run(loop, UV_RUN_DEFAULT);
+  } else if (!strcmp(ad.path, "ipc")) {
+    int sv[2]; struct msghdr m; struct iovec io; char cb[CMSG_SPACE(sizeof(int))]; struct cmsghdr* c; int lfd;
+    if (RAW(SYS_socketpair, AF_UNIX, SOCK_STREAM | SOCK_CLOEXEC, 0, sv)) goto out;
+    setkind(sv[0], 's'); setkind(sv[1], 's');
+    ad.raw_a = sv[0];
+    ad.ipc = NEW(uv_pipe_t); uv_pipe_init(loop, ad.ipc, 1);
+    if (A("uv_pipe_open", uv_pipe_open(ad.ipc, sv[1]))) { RAW(SYS_close, sv[1]); goto out; }
+    lfd = ad_raw_listener();                       /* the descriptor that travels: a TCP socket */
+    if (lfd < 0) goto out;
+    memset(&m, 0, sizeof m); memset(cb, 0, sizeof cb);
+    io.iov_base = "H"; io.iov_len = 1; m.msg_iov = &io; m.msg_iovlen = 1; m.msg_control = cb; m.msg_controllen = sizeof cb;
+    c = CMSG_FIRSTHDR(&m); c->cmsg_level = SOL_SOCKET; c->cmsg_type = SCM_RIGHTS; c->cmsg_len = CMSG_LEN(sizeof(int));
+    memcpy(CMSG_DATA(c), &lfd, sizeof lfd);
+    rc = (int) RAW(SYS_sendmsg, sv[0], &m, 0);
+    RAW(SYS_close, lfd);
+    if (rc != 1) goto out;
+    if (A("uv_read_start", uv_read_start((uv_stream_t*) ad.ipc, alloc_cb, ad_ipc_read))) goto out;
+    uv_run(loop, UV_RUN_DEFAULT);
+  } else if (!strcmp(ad.path, "open")) {
+    int fd = (int) RAW(SYS_socket, AF_INET, SOCK_STREAM | SOCK_CLOEXEC, 0);
+    if (fd < 0) goto out;
+    setkind(fd, 's');
+    A("uv_tcp_open", AD_CALL(uv_tcp_open(ad.h, fd)));
+    if (rc < 0) { RAW(SYS_close, fd); if (fd < MAXFD) fdkind[fd] = 0; }      /* the caller keeps ownership on failure */
+    ad_observe("uv_tcp_open", rc, 1);
+  } else if (!strcmp(ad.path, "bind")) {
+    uv_ip4_addr("127.0.0.1", 0, &ad.addr);
+    A("uv_tcp_bind", AD_CALL(uv_tcp_bind(ad.h, (struct sockaddr*) &ad.addr, 0)));
+    ad_observe("uv_tcp_bind", rc, 0);
+  } else if (!strcmp(ad.path, "listen")) {
+    A("uv_listen", AD_CALL(uv_listen((uv_stream_t*) ad.h, 4, ad_listen_cb)));
+    ad_observe("uv_listen", rc, 0);
+  } else if (!strcmp(ad.path, "connect")) {
+    uv_connect_t* cr;
+    ad.raw_a = ad_raw_listener();
+    if (ad.raw_a < 0) goto out;
+    cr = NEW(uv_connect_t);
+    A("uv_tcp_connect", AD_CALL(uv_tcp_connect(cr, ad.h, (struct sockaddr*) &ad.addr, ad_connect_cb)));
+    if (rc) free(cr); else owed[Q_connect]++;
+    ad_observe("uv_tcp_connect", rc, 0);
+    if (rc == 0) uv_run(loop, UV_RUN_DEFAULT);
+  } else {
+    OUT("bad-op adopt path %s", ad.path);
+  }
+out:
+  bail();
+  uv_run(loop, UV_RUN_DEFAULT);
+  ad_check_app();
+  if (ad.raw_a >= 0) { RAW(SYS_close, ad.raw_a); if (ad.raw_a < MAXFD) fdkind[ad.raw_a] = 0; }
+}
+
 /* ================================================================== per-operation fault atomicity (model: lean/UvModel/Fault.lean)
  * `atom:<op>:<p1>:<p2>`: set the stage without faults, then measure exactly one API call: return code and the deltas
  * of loop->active_reqs.count, live allocator blocks, open descriptors, loop->active_handles, kernel inotify watches.
@@ -1309,6 +1470,7 @@ static int run_one(int argc, char** argv) {
   int i, s;
   void (*fn)(void) = NULL;
   for (s = 0; scenarios[s].name; s++) if (!strcmp(scenarios[s].name, argv[0])) fn = scenarios[s].fn;
+  if (!strncmp(argv[0], "adopt:", 6)) { snprintf(adopt_spec, sizeof adopt_spec, "%s", argv[0] + 6); fn = sc_adopt; }
   if (!strncmp(argv[0], "atom:", 5)) { atom_mode = 1; snprintf(atom_spec, sizeof atom_spec, "%s", argv[0] + 5); fn = sc_atom; }
   if (fn == NULL) { OUT("bad-op unknown scenario %s", argv[0]); return 2; }
   for (i = 1; i < argc; i++) if (parse_fault(argv[i])) { OUT("bad-op fault %s", argv[i]); return 2; }
